@@ -24,7 +24,7 @@ SPECIFICATION Spec
 INVARIANT Verdict
 CHECK_DEADLOCK FALSE
 """
-LIMITS = [-1, 0, 1, 2, 5]
+LIMITS = [-1, -5, 0, 1, 2, 5]
 NOTE = {
     "element-not-stored-or-clip": "a returned element is neither a stored event nor that event cut to the window",
     "duplicate": "an event is returned twice",
